@@ -269,7 +269,7 @@ func TestVerif_C17(t *testing.T) {
 	prod, _ := c02Product()
 	stride := pick(r, 61, 7) * scale
 	r.Parallel(len(prod), func(l *Local) {
-		if (l.Batch+int(r.Seed))%stride != 0 {
+		if !r.visit(l.Batch, stride) {
 			return
 		}
 		c := prod[l.Batch]
